@@ -8,6 +8,7 @@ mod endpoint;
 mod gen;
 mod genhs;
 mod hs;
+mod pipe;
 mod pure;
 mod transport;
 mod util;
@@ -67,7 +68,9 @@ fn run_block(lines: &[String], out: &mut String) {
 }
 
 fn main() {
-    std::panic::set_hook(Box::new(|_| {}));
+    if std::env::var("WSH_PANIC_TRACE").is_err() {
+        std::panic::set_hook(Box::new(|_| {}));
+    }
     let args: Vec<String> = std::env::args().collect();
     let stdout = std::io::stdout();
     let mut so = std::io::BufWriter::new(stdout.lock());
@@ -94,7 +97,7 @@ fn main() {
                     run_block(&c, &mut out);
                     so.write_all(out.as_bytes()).unwrap();
                 }
-            } else if let Some(prof) = fam.strip_prefix("ep:") {
+            } else if let (Some(prof), false) = (fam.strip_prefix("ep:"), fam == "ep:pipe") {
                 let prof = gen::profile_of(prof);
                 for i in 0..count {
                     let mut r = rng.fork();
@@ -102,6 +105,16 @@ fn main() {
                     let mut out = String::new();
                     run_block(&c, &mut out);
                     so.write_all(out.as_bytes()).unwrap();
+                }
+            } else if fam == "ep:pipe" {
+                for i in 0..count {
+                    let mut r = rng.fork();
+                    let (a, b) = pipe::gen_pipe(&mut r, i);
+                    for c in [a, b] {
+                        let mut out = String::new();
+                        run_block(&c, &mut out);
+                        so.write_all(out.as_bytes()).unwrap();
+                    }
                 }
             } else if fam == "hs:server" || fam == "hs:client" {
                 for i in 0..count {
